@@ -466,10 +466,19 @@ def build(names, deep=False):
     return cat.cases
 
 
+def _partition_ok(sets):
+    """format 2 needs the glyph sets of one sequence to be pairwise equal or disjoint"""
+    for a in sets:
+        for b in sets:
+            if a != b and set(a) & set(b):
+                return False
+    return True
+
+
 # ---- random cases (V mode) ----------------------------------------------------------------------
 def random_case(rng, cid, maxlen=14):
     g = lambda: rng.randint(1, 6)
-    gs = lambda: set(rng.sample(range(1, 7), rng.randint(1, 3)))
+    gs = lambda: set(rng.sample(range(1, 7), rng.choice([1, 1, 2, 3])))
 
     def rand_flags():
         return dict(rng.choice(FLAGSETS))
@@ -505,7 +514,13 @@ def random_case(rng, cid, maxlen=14):
             r = rule([gs() for _ in range(nin)], acts,
                      back=[gs() for _ in range(rng.randint(0, 2))] if chain else [],
                      ahead=[gs() for _ in range(rng.randint(0, 2))] if chain else [])
-            ll.append(lookup([ctx([r], fmt=3, chain=chain)], gpos=gpos, **rand_flags()))
+            fmt = 3
+            allsets = r["back"] + r["in"] + r["ahead"]
+            if all(len(x) == 1 for x in allsets) and rng.random() < 0.6:
+                fmt = 1
+            elif rng.random() < 0.6 and all(_partition_ok(part) for part in (r["back"], r["in"], r["ahead"])):
+                fmt = 2
+            ll.append(lookup([ctx([r], fmt=fmt, chain=chain)], gpos=gpos, **rand_flags()))
         else:
             ll.append(lookup([leaf(gpos) for _ in range(rng.randint(1, 2))], gpos=gpos, **rand_flags()))
     order = [rng.randint(1, n) for _ in range(rng.randint(1, 3))]
